@@ -20,14 +20,16 @@ RULE = ("seeded random + stratified ballot profiles (ties, k winners, approval b
 REQUIRED = ["iff_checked:plurality", "iff_checked:approval", "iff_checked:supermajority", "range_values_checked",
             "margin_checked:oracle_tally", "margin_checked:contest_tally_rules_off", "margin_checked:contest_tally_rules_on",
             "stratum:tie", "stratum:exact_threshold", "stratum:lacking_contest_style_off", "truth:winners_really_won",
-            "truth:winners_did_not_win"]
+            "truth:winners_did_not_win", "margin_tally_holds_write_in_votes"]
 ASSUMPTIONS = ["shares f in {1/2,1/4,1/8} (f and 1/(2f) both dyadic) are exact in binary; inexact shares (2/3, 0.6) are only evaluated at a "
-               "distance from the threshold that rounding cannot bridge", "ballot candidates are a subset of the "
-               "contest's candidates"]
+               "distance from the threshold that rounding cannot bridge", "a mark for a name that is not on the contest's "
+               "candidate list (write-in) appears only on ballots with no mark for a listed candidate, so that no "
+               "reading of 'valid vote' is imposed on the code"]
 N_CASES = {"quick": 96000, "thorough": 768000}
 TRUTHY = (True, 1, "x", 5, "marked", 2.5)
 FALSY = (False, 0, "", None, 0.0)
 CANDS = ["A", "B", "C", "D", "E", "F"]
+WRITE_INS = ["W/I", "Dan"]
 
 
 def plan(tier, seed):
@@ -49,6 +51,7 @@ def gen_profile(rng, kind, stratum):
     p_lack = rng.choice((0, 0, 0.1, 0.5))
     max_marks = 1 if kind == "plurality" and rng.random() < 0.6 else ncand
     weights = [rng.random() ** 2 for _ in cands]
+    write_ins = rng.random() < 0.3
     for _ in range(nb):
         if rng.random() < p_lack:
             ballots.append(None)
@@ -63,6 +66,13 @@ def gen_profile(rng, kind, stratum):
                 b[c] = rng.choice(TRUTHY)
             elif rng.random() < 0.4:
                 b[c] = rng.choice(FALSY)  # listed but not marked; otherwise absent from the ballot
+        if write_ins:
+            # a name that is not on the contest's candidate list: marked only on ballots with no candidate mark (a
+            # write-in-only ballot carries no valid vote under every reading), listed-but-unmarked anywhere
+            if nm == 0 and rng.random() < 0.7:
+                b[rng.choice(WRITE_INS)] = rng.choice(TRUTHY)
+            elif rng.random() < 0.2:
+                b[rng.choice(WRITE_INS)] = rng.choice(FALSY)
         ballots.append(b)
     winners = rng.sample(cands, k)
     prof = {"kind": kind, "cands": cands, "winners": winners, "share": f, "ballots": ballots}
@@ -85,14 +95,16 @@ def truthy(v):
     return bool(v)
 
 
-def oracle_tally(prof):
+def oracle_tally(prof, with_write_ins=False):
+    """votes per listed candidate; with_write_ins also counts marks for names not on the candidate list (as a raw
+    tabulation of the cards would)"""
     tal = {c: 0 for c in prof["cands"]}
     for b in prof["ballots"]:
         if b is None:
             continue
         for c, v in b.items():
-            if truthy(v):
-                tal[c] += 1
+            if truthy(v) and (c in tal or with_write_ins):
+                tal[c] = tal.get(c, 0) + 1
     return tal
 
 
@@ -286,7 +298,10 @@ def run_case(prof, rec):
                     return
 
         # (a) the oracle's raw tally: comparable when the assorter counts the same ballots (super-majority: no multi-mark ballot)
-        cmp_margin("oracle_tally", dict(tal), kind != "supermajority" or not multi_mark)
+        tal_raw = oracle_tally(prof, with_write_ins=True)
+        if len(tal_raw) > len(tal):
+            rec.count("margin_tally_holds_write_in_votes")
+        cmp_margin("oracle_tally", tal_raw, kind != "supermajority" or not multi_mark)
         # (b) Contest.tally with rules off
         ok, _ = rec.guard("c02.call:Contest.tally", Contest.tally, {"con": con}, cvrs, False)
         if ok:
